@@ -119,6 +119,14 @@ type Explorer struct {
 	// key, so any difference in behaviour comes from state the key cannot see (process-local caches and flags in the
 	// keepers), which the lock-step model judges exactly as on the first visit.
 	Revisit bool
+
+	// graph of the exploration (state key -> successor key per operation index); recorded when RecordGraph is set,
+	// used by Tour
+	RecordGraph bool
+	PrepWorld   func(w *World) error // called by Tour for every fresh instance (e.g. to attach an instrumented stand)
+	graph       map[string][]string
+	graphMu     sync.Mutex
+	k0          string
 }
 
 type Worker struct {
@@ -210,6 +218,7 @@ func (x *Explorer) RunOn(worlds []*World) []Node {
 		}
 	}
 	seen[k0] = struct{}{}
+	x.k0 = k0
 	frontier := []Node{{Path: nil}}
 	all := []Node{{Path: nil}}
 	var transitions, states int64 = 0, 1
@@ -238,6 +247,12 @@ func (x *Explorer) RunOn(worlds []*World) []Node {
 					}
 					n := frontier[i]
 					ctx, model := x.Replay(wk.W, n.Path)
+					var succ []string
+					var parentKey string
+					if x.RecordGraph {
+						parentKey = wk.W.StateKey(ctx)
+						succ = make([]string, len(x.Prefix))
+					}
 					if x.OnState != nil {
 						x.OnState(wk, n, ctx, model)
 					}
@@ -256,6 +271,9 @@ func (x *Explorer) RunOn(worlds []*World) []Node {
 							x.OnTransition(wk, n, op, res, ctx, child, model, m2)
 						}
 						key := wk.W.StateKey(child)
+						if succ != nil {
+							succ[oi] = key
+						}
 						seenMu.Lock()
 						_, dup := seen[key]
 						if !dup {
@@ -272,6 +290,14 @@ func (x *Explorer) RunOn(worlds []*World) []Node {
 							atomic.AddInt64(&revisits, 1)
 							x.OnState(wk, Node{Path: append(append([]int{}, n.Path...), oi)}, child, m2)
 						}
+					}
+					if succ != nil {
+						x.graphMu.Lock()
+						if x.graph == nil {
+							x.graph = map[string][]string{}
+						}
+						x.graph[parentKey] = succ
+						x.graphMu.Unlock()
 					}
 				}
 			}(wi)
@@ -353,4 +379,180 @@ func budgetFromEnv(defMin int) time.Duration {
 		}
 	}
 	return time.Duration(defMin) * time.Minute
+}
+
+
+// Tour — transition tour on PERSISTENT instances (DESIGN §2/E1b). The breadth-first search re-derives every state by
+// replaying its path on copy-on-write branches that are thrown away, and it identifies states by their store contents.
+// Both hide state that lives in the process rather than in the stores (caches, flags, lazily built tables inside the
+// keepers). After a fixpoint search the reachable graph is finite and known; Tour walks it on fresh application
+// instances the way a chain would live through it: ONE linear history per instance, every successful operation's writes
+// kept, nothing replayed or discarded, each edge of the graph covered at least once (the edges are partitioned over
+// the instances; an instance moves to its next uncovered edge along a shortest path of already explored operations).
+// After every step the check's own oracles run — OnTransition on the step, OnState (probes, queries vs the lock-step
+// model) on the state reached — and the store contents must be the ones the search found for that edge.
+func (x *Explorer) Tour(instances int) {
+	if x.graph == nil || len(x.graph) == 0 {
+		x.Rep.HarnessError("Tour: no graph recorded")
+		return
+	}
+	if !x.Rep.Exhaustive {
+		return // the search did not reach its fixpoint: no complete graph to tour
+	}
+	worlds, err := buildWorlds(instances)
+	if err != nil {
+		x.Rep.HarnessError("Tour: fixture: %v", err)
+		return
+	}
+	if x.PrepWorld != nil {
+		for _, w := range worlds {
+			if err := x.PrepWorld(w); err != nil {
+				x.Rep.HarnessError("Tour: fixture: %v", err)
+				return
+			}
+		}
+	}
+	type edge struct {
+		from string
+		op   int
+	}
+	var keys []string
+	for k := range x.graph {
+		keys = append(keys, k)
+	}
+	sort.Strings(keys)
+	var edges []edge
+	for _, k := range keys {
+		for oi := range x.graph[k] {
+			edges = append(edges, edge{k, oi})
+		}
+	}
+	var steps, covered, diverged int64
+	var wg sync.WaitGroup
+	for wi := range worlds {
+		wg.Add(1)
+		go func(wi int) {
+			defer wg.Done()
+			w := worlds[wi]
+			wk := &Worker{ID: wi, W: w, X: x}
+			todo := map[edge]bool{}
+			for j, e := range edges {
+				if j%len(worlds) == wi {
+					todo[e] = true
+				}
+			}
+			cur := x.k0
+			if k := w.StateKey(w.Ctx); k != cur {
+				x.Rep.HarnessError("Tour: instance %d does not start on W0", wi)
+				return
+			}
+			var model any
+			if x.ModelInit != nil {
+				model = x.ModelInit(w)
+			}
+			var path []int
+			step := func(oi int) bool {
+				op := x.Prefix[oi]
+				cctx, write := w.Ctx.CacheContext()
+				res := w.Apply(cctx, op)
+				var m2 any
+				if x.ModelStep != nil {
+					m2 = x.ModelStep(w, model, op, res, w.Ctx, cctx)
+				}
+				n := Node{Path: append([]int{}, path...)}
+				if x.OnTransition != nil {
+					x.OnTransition(wk, n, op, res, w.Ctx, cctx, model, m2)
+				}
+				write() // the history is kept: this instance lives through ONE linear sequence of operations
+				path = append(path, oi)
+				model = m2
+				atomic.AddInt64(&steps, 1)
+				want := x.graph[cur][oi]
+				got := w.StateKey(w.Ctx)
+				if got != want {
+					atomic.AddInt64(&diverged, 1)
+					x.Rep.Violate(Violation{Kind: "behaviour-depends-on-process-history", Group: op.Label,
+						Sig:    fmt.Sprintf("tour: %v", pathLabels(x.Prefix, path)),
+						Replay: mustJSON(map[string]any{"ops": Node{Path: path}.Ops(x.Prefix)}),
+						What: fmt.Sprintf("on an instance that lived through the linear history %v the operation %s led to other store contents than the same operation on the same store contents during the search: the outcome depends on state outside the stores", pathLabels(x.Prefix, path[:len(path)-1]), op.Label)})
+					return false
+				}
+				cur = got
+				if x.OnState != nil {
+					x.OnState(wk, Node{Path: append([]int{}, path...)}, Branch(w.Ctx), model)
+				}
+				return true
+			}
+			for len(todo) > 0 {
+				// an uncovered edge out of the current state?
+				next := -1
+				for oi := range x.graph[cur] {
+					if todo[edge{cur, oi}] {
+						next = oi
+						break
+					}
+				}
+				if next >= 0 {
+					delete(todo, edge{cur, next})
+					atomic.AddInt64(&covered, 1)
+					if !step(next) {
+						return
+					}
+					continue
+				}
+				// shortest path (in explored operations) to a state with an uncovered edge of this instance
+				type qn struct {
+					key  string
+					path []int
+				}
+				seen := map[string]bool{cur: true}
+				queue := []qn{{cur, nil}}
+				var route []int
+				for len(queue) > 0 && route == nil {
+					q := queue[0]
+					queue = queue[1:]
+					for oi, to := range x.graph[q.key] {
+						if seen[to] {
+							continue
+						}
+						seen[to] = true
+						p := append(append([]int{}, q.path...), oi)
+						has := false
+						for oj := range x.graph[to] {
+							if todo[edge{to, oj}] {
+								has = true
+								break
+							}
+						}
+						if has {
+							route = p
+							break
+						}
+						queue = append(queue, qn{to, p})
+					}
+				}
+				if route == nil {
+					// remaining edges start in states this instance can no longer reach (the graph is not strongly
+					// connected from here): count them as not toured
+					x.Rep.Count("tour_edges_unreachable_from_tour_position", int64(len(todo)))
+					return
+				}
+				for _, oi := range route {
+					if todo[edge{cur, oi}] {
+						delete(todo, edge{cur, oi})
+						atomic.AddInt64(&covered, 1)
+					}
+					if !step(oi) {
+						return
+					}
+				}
+			}
+		}(wi)
+	}
+	wg.Wait()
+	x.Rep.Count("tour_steps", steps)
+	x.Rep.Count("tour_edges_covered", covered)
+	x.Rep.Extra["tour_edges_total"] = len(edges)
+	x.Rep.Extra["tour_instances"] = len(worlds)
+	x.Rep.Count("traces_validated_against_impl", steps)
 }
